@@ -301,7 +301,7 @@ def olean_file(mod):
     return os.path.join(LEAN, '.lake', 'build', 'lib', 'lean', *mod.split('.')) + '.olean'
 
 
-def leancheck_modules(mods, jobs=4):
+def leancheck_modules(mods, jobs=3):
     """-> ([(module, log)] rejected by leanchecker, number of modules actually run). Cache: module -> sha1 of its .olean."""
     from concurrent.futures import ThreadPoolExecutor
     cache_f = os.path.join(LEAN, '.lake', 'leanchecked.json')
@@ -690,8 +690,11 @@ class Check:
                         self.breaks.append({'kind': 'definition-changed', 'theorem': d, 'now': now.get(d, 'missing'),
                                             'note': 'T-gen chain: a definition the generated obligations of %s are about differs from lean/pins/GEN.json' % ', '.join(gen_modules)})
                 self.dist['pinned_tgen_definitions'] = len(want)
-        # independent re-check of the compiled modules this gate relies on (cached per .olean; every tier)
-        if not self.leanchecker(mods):
+        # independent re-check of the compiled modules this gate relies on (one process per module, cached per .olean).
+        # Thorough tier only: on a fresh restore nothing is cached and 3-6 s per module adds minutes to every first run, which the
+        # quick tier ("run on every change") cannot afford; the quick tier relies on the kernel check done by `lake build`, the
+        # forbidden-construct scan (no metaprogramming, no `#eval`, no `Lean.` API, no local instances) and the axiom audit.
+        if self.tier == 'thorough' and not self.leanchecker(mods):
             ok = False
         return ok and not any(b['kind'] == 'forbidden-token' for b in self.breaks)
 
